@@ -378,65 +378,40 @@ func TypedValueToYANGType(tv *sdcpb.TypedValue, schemaObject *sdcpb.SchemaElem) 
 	if tv == nil {
 		return nil, errors.New("update without a value")
 	}
-	switch leafTypeOf(schemaObject) {
-	case "empty":
-		// the existence is the value, devices report it as true, {} or [null]
-		return &sdcpb.TypedValue{Timestamp: tv.GetTimestamp(), Value: &sdcpb.TypedValue_EmptyVal{}}, nil
-	case "decimal64":
-		// gNMI devices report decimal64 as double
-		switch v := tv.Value.(type) {
-		case *sdcpb.TypedValue_DoubleVal:
-			return ConvertToTypedValue(schemaObject, strconv.FormatFloat(v.DoubleVal, 'f', -1, 64), tv.GetTimestamp())
-		case *sdcpb.TypedValue_FloatVal:
-			return ConvertToTypedValue(schemaObject, strconv.FormatFloat(float64(v.FloatVal), 'f', -1, 32), tv.GetTimestamp())
+	var lt *sdcpb.SchemaLeafType
+	switch {
+	case schemaObject.GetField() != nil:
+		lt = schemaObject.GetField().GetType()
+	case schemaObject.GetLeaflist() != nil:
+		lt = schemaObject.GetLeaflist().GetType()
+	}
+	if lt != nil {
+		switch tv.Value.(type) {
+		case *sdcpb.TypedValue_LeaflistVal:
+			if schemaObject.GetLeaflist() != nil {
+				return ConvertTypedValueToYANGType(schemaObject, tv)
+			}
+			return tv, nil
+		case *sdcpb.TypedValue_JsonIetfVal, *sdcpb.TypedValue_JsonVal:
+			// a JSON scalar (or array for a leaf-list) reported for a leaf
+			return ConvertTypedValueToYANGType(schemaObject, tv)
+		case *sdcpb.TypedValue_ProtoBytes, *sdcpb.TypedValue_AnyVal:
+			return tv, nil
 		}
+		if lt.GetType() == "empty" {
+			// the existence is the value, devices report it as true, {} or [null]
+			return &sdcpb.TypedValue{Timestamp: tv.GetTimestamp(), Value: &sdcpb.TypedValue_EmptyVal{}}, nil
+		}
+		// a single value (of a leaf or one element of a leaf-list) in the YANG type
+		return convertScalarToYANGType(lt, tv)
 	}
 	switch tv.Value.(type) {
 	case *sdcpb.TypedValue_AsciiVal:
 		return ConvertToTypedValue(schemaObject, tv.GetAsciiVal(), tv.GetTimestamp())
-	case *sdcpb.TypedValue_BoolVal:
-		return tv, nil
-	case *sdcpb.TypedValue_BytesVal:
-		return tv, nil
-	case *sdcpb.TypedValue_DecimalVal:
-		return normalizeDecimalTypedValue(tv), nil
-	case *sdcpb.TypedValue_FloatVal:
-		return tv, nil
-	case *sdcpb.TypedValue_DoubleVal:
-		return tv, nil
-	case *sdcpb.TypedValue_IntVal:
-		return tv, nil
 	case *sdcpb.TypedValue_StringVal:
 		return ConvertToTypedValue(schemaObject, tv.GetStringVal(), tv.GetTimestamp())
-	case *sdcpb.TypedValue_UintVal:
-		return tv, nil
-	case *sdcpb.TypedValue_JsonIetfVal, *sdcpb.TypedValue_JsonVal:
-		// a JSON scalar (or array for a leaf-list) reported for a leaf
-		if schemaObject.GetField() != nil || schemaObject.GetLeaflist() != nil {
-			return ConvertTypedValueToYANGType(schemaObject, tv)
-		}
-	case *sdcpb.TypedValue_LeaflistVal:
-		if schemaObject.GetLeaflist() != nil {
-			return ConvertTypedValueToYANGType(schemaObject, tv)
-		}
-		return tv, nil
-	case *sdcpb.TypedValue_ProtoBytes:
-		return tv, nil
-	case *sdcpb.TypedValue_AnyVal:
-		return tv, nil
 	}
 	return tv, nil
-}
-
-// leafTypeOf returns the YANG type of a leaf or leaf-list schema object ("" for containers)
-func leafTypeOf(schemaObject *sdcpb.SchemaElem) string {
-	switch {
-	case schemaObject.GetField() != nil:
-		return schemaObject.GetField().GetType().GetType()
-	case schemaObject.GetLeaflist() != nil:
-		return schemaObject.GetLeaflist().GetType().GetType()
-	}
-	return ""
 }
 
 func ConvertToTypedValue(schemaObject *sdcpb.SchemaElem, v string, ts uint64) (*sdcpb.TypedValue, error) {
@@ -807,6 +782,17 @@ func convertScalarToYANGTypeInternal(lt *sdcpb.SchemaLeafType, tv *sdcpb.TypedVa
 	return ctv, nil
 }
 
+// typedScalarToLexical is TypedValueToString with doubles (the gNMI encoding of decimal64) in plain decimal notation
+func typedScalarToLexical(tv *sdcpb.TypedValue) string {
+	switch v := tv.GetValue().(type) {
+	case *sdcpb.TypedValue_DoubleVal:
+		return strconv.FormatFloat(v.DoubleVal, 'f', -1, 64)
+	case *sdcpb.TypedValue_FloatVal:
+		return strconv.FormatFloat(float64(v.FloatVal), 'f', -1, 32)
+	}
+	return TypedValueToString(tv)
+}
+
 // convertTypedScalarToYANGType adjusts a value that already comes as a typed scalar (IntVal, UintVal, BoolVal, ...) to the given YANG type.
 func convertTypedScalarToYANGType(lt *sdcpb.SchemaLeafType, tv *sdcpb.TypedValue) (*sdcpb.TypedValue, error) {
 	switch lt.GetType() {
@@ -837,6 +823,10 @@ func convertTypedScalarToYANGType(lt *sdcpb.SchemaLeafType, tv *sdcpb.TypedValue
 	case "enumeration":
 		return tv, nil
 	case "union":
+		// the member type is the first one the lexical representation is valid for
+		if ctv, err := convertStringToTv(lt, typedScalarToLexical(tv), tv.GetTimestamp()); err == nil && ctv != nil {
+			return ctv, nil
+		}
 		return tv, nil
 	case "boolean":
 		v, err := strconv.ParseBool(TypedValueToString(tv))
@@ -845,7 +835,7 @@ func convertTypedScalarToYANGType(lt *sdcpb.SchemaLeafType, tv *sdcpb.TypedValue
 		}
 		return &sdcpb.TypedValue{Value: &sdcpb.TypedValue_BoolVal{BoolVal: v}}, nil
 	case "decimal64":
-		d64, err := ParseDecimal64(TypedValueToString(tv))
+		d64, err := ParseDecimal64(typedScalarToLexical(tv))
 		if err != nil {
 			return nil, err
 		}
